@@ -456,9 +456,10 @@ func (f *FaultSink) Write(p []byte) (int, error) {
 
 // WriterResult is what a writer run produced.
 type WriterResult struct {
-	Bytes []byte
-	Rets  []string
-	Errs  []error
+	Bytes  []byte
+	Rets   []string
+	Errs   []error
+	States []map[string]any // the writer's projected public state (StateEv + nw) after every call
 }
 
 // RunWriter executes the workload against the real writer with the given sink
@@ -509,6 +510,7 @@ func RunWriter(tr *wl.Trace, w wl.Workload, sink io.Writer, buf *bytes.Buffer) *
 		tr.Add(e)
 		res.Rets = append(res.Rets, ret)
 		res.Errs = append(res.Errs, cerr)
+		res.States = append(res.States, st)
 	}
 	if buf != nil {
 		res.Bytes = buf.Bytes()
